@@ -1,6 +1,7 @@
 package main
 
 import (
+	"reflect"
 	"runtime"
 
 	"github.com/veraison/psatoken/encoding"
@@ -25,6 +26,8 @@ import (
 // The programs run twice: sequentially, then concurrently on fresh objects; the
 // observation is the concurrent results (long values abbreviated) and whether
 // they equal the sequential ones.
+var concCase int
+
 func init() {
 	execs["CONC"] = execConc
 	props["C17"] = &prop{gen: genC17}
@@ -206,22 +209,47 @@ func runThread(sh *concShared, ctok []string, prog []string) []string {
 			})
 		case op == "x":
 			r = guard(func() string {
+				// a struct type no earlier case has used: per-type caches are cold
+				t := reflect.StructOf([]reflect.StructField{
+					{Name: "A", Type: reflect.TypeOf((*int64)(nil)), Tag: `cbor:"1,keyasint" json:"a"`},
+					{Name: "B" + strconv.Itoa(concCase), Type: reflect.TypeOf((*int64)(nil)), Tag: `cbor:"2,keyasint,omitempty" json:"b,omitempty"`},
+				})
 				v1, v2 := int64(len(prog)), int64(k)
-				st := struct {
-					A *int64 `cbor:"1,keyasint" json:"a"`
-					B *int64 `cbor:"2,keyasint,omitempty" json:"b,omitempty"`
-				}{&v1, &v2}
-				j, err := encoding.SerializeStructToJSON(&st)
+				st := reflect.New(t)
+				st.Elem().Field(0).Set(reflect.ValueOf(&v1))
+				st.Elem().Field(1).Set(reflect.ValueOf(&v2))
+				j, err := encoding.SerializeStructToJSON(st.Interface())
 				if err != nil {
 					return "err"
 				}
-				cb, err := encoding.SerializeStructToCBOR(embEm, &st)
+				cb, err := encoding.SerializeStructToCBOR(embEm, st.Interface())
 				if err != nil {
 					return "err"
 				}
 				// keep the results alive across a scheduling point before looking at them
 				runtime.Gosched()
 				return "ok:" + string(j) + ":" + hexTok(cb)
+			})
+		case op == "D":
+			r = guard(func() string {
+				if sh.jsonEnc == nil {
+					return "na"
+				}
+				// the deprecated aliases
+				c1, err1 := psatoken.DecodeJSONClaims(sh.jsonEnc)
+				c2, err2 := psatoken.DecodeUnvalidatedJSONClaims(sh.jsonEnc)
+				res := ""
+				if err1 != nil {
+					res += "err"
+				} else {
+					res += strings.Join(obsGetters(c1), ",")
+				}
+				if err2 != nil {
+					res += "|err"
+				} else {
+					res += "|" + strings.Join(obsGetters(c2), ",")
+				}
+				return res
 			})
 		case op == "J":
 			r = guard(func() string {
@@ -273,13 +301,9 @@ func execConc(in string) string {
 	}
 	progs = append(progs, cur)
 
-	// sequential reference
-	shSeq := mkShared(ctok, ks)
-	seq := make([][]string, len(progs))
-	for i, p := range progs {
-		seq[i] = runThread(shSeq, ctok, p)
-	}
-	// concurrent run on fresh objects
+	concCase++
+	// the concurrent run comes FIRST, on fresh objects: lazily initialised package state (caches, once-only flags)
+	// must be safe for the first callers, not only after a sequential warm-up
 	sh := mkShared(ctok, ks)
 	conc := make([][]string, len(progs))
 	var wg sync.WaitGroup
@@ -294,6 +318,12 @@ func execConc(in string) string {
 	}
 	close(start)
 	wg.Wait()
+	// sequential reference
+	shSeq := mkShared(ctok, ks)
+	seq := make([][]string, len(progs))
+	for i, p := range progs {
+		seq[i] = runThread(shSeq, ctok, p)
+	}
 
 	same := "conc=same"
 	var parts []string
@@ -317,7 +347,7 @@ func genC17(tier string, seed uint64, emit func(string)) {
 		n = 350
 	}
 	sops := []string{"sv", "sg", "sc", "sj", "svc", "svj", "seV", "seV", "sej", "seg", "sdV", "sdV", "sdg", "sdv", "sdc", "sdj", "sdm"}
-	pops := []string{"pv", "pg", "pc", "pj", "peV", "pej", "pdV", "pdg", "pdc", "pdj", "n", "J", "C", "x", "x"}
+	pops := []string{"pv", "pg", "pc", "pj", "peV", "pej", "pdV", "pdg", "pdc", "pdj", "n", "J", "C", "x", "x", "D"}
 	for kind := 1; kind <= 2; kind++ {
 		alt := claimAlternatives(kind, r)
 		for i := 0; i < n; i++ {
@@ -343,6 +373,9 @@ func genC17(tier string, seed uint64, emit func(string)) {
 			var progs []string
 			for t := 0; t < g; t++ {
 				prog := []string{"T" + strconv.Itoa(1+r.intn(5))}
+				if i < 2 {
+					prog = append(prog, "D", "x")
+				}
 				nops := 3 + r.intn(8)
 				for j := 0; j < nops; j++ {
 					var op string
